@@ -275,7 +275,7 @@ func checkC09(c *Ctx) {
 		for _, v := range ex.Variants {
 			for _, u := range v.Units {
 				for _, l := range u.Lines {
-					if l.Fn == nil || l.Fn.Name() != "generateHeaderLiteral" || len(l.Segs) < 2 || l.Segs[0].Hole != nil {
+					if l.Fn == nil || l.Fn != c.P.Func(pkgHTTP, "Generator.generateHeaderLiteral") || len(l.Segs) < 2 || l.Segs[0].Hole != nil {
 						continue
 					}
 					label := strings.TrimSpace(strings.SplitN(l.Segs[0].Const, ":", 2)[0])
@@ -330,7 +330,7 @@ func checkHeaderVocabulary(c *Ctx, ep *EmittedPkg) {
 		for _, u := range v.Units {
 			has := false
 			for _, l := range u.Lines {
-				if l.Fn != nil && l.Fn.Name() == "writeValidateHeaderValueFn" {
+				if l.Fn != nil && l.Fn == c.P.Func(pkgTSServer, "Generator.writeValidateHeaderValueFn") {
 					has = true
 					tsLines = append(tsLines, lineText(l.Segs))
 				}
